@@ -165,6 +165,7 @@ func byName(decls map[ast.PredicateSym]ast.Decl) map[string]ast.Decl {
 func New(extraPredicates map[ast.PredicateSym]ast.Decl, decls []ast.Decl, boundsChecking BoundsCheckingMode) (*Analyzer, error) {
 	extraByName := byName(extraPredicates)
 	declMap := make(map[ast.PredicateSym]ast.Decl)
+	copied := false
 	for _, decl := range decls {
 		pred := decl.DeclaredAtom.Predicate
 		if pred == symbols.Package || pred == symbols.Use {
@@ -185,6 +186,15 @@ func New(extraPredicates map[ast.PredicateSym]ast.Decl, decls []ast.Decl, bounds
 				return nil, fmt.Errorf("declared arity %v conflicts with extra decl %v", decl, extraDecl)
 			}
 			// Override the synthetic decl with the one we were requested to use.
+			// The map belongs to the caller, so this is done in a copy.
+			if !copied {
+				c := make(map[ast.PredicateSym]ast.Decl, len(extraPredicates))
+				for p, d := range extraPredicates {
+					c[p] = d
+				}
+				extraPredicates = c
+				copied = true
+			}
 			delete(extraPredicates, pred)
 		}
 	}
